@@ -68,15 +68,18 @@ def gen_qstr(rng, rich=True):
             parts.append(rng.choice(['"', "'", '"x"', "it's"]))
         elif k < 0.88 and rich:
             parts.append(rng.choice(NONASCII))
-        elif k < 0.95 and rich:
+        elif k < 0.93 and rich:
             parts.append(rng.choice(["\\", "\n", "\t", "a\\b", "\\\\"]))
+        elif k < 0.96 and rich:
+            # characters that str.splitlines() treats as line boundaries but the command-file syntax does not
+            parts.append(rng.choice(["\x0c", "\x0b", "\x1c", "\x1d", "\x1e", "\x85", "\u2028", "\u2029", "\r", "\u200b", "\ufeff", "\u3000"]))
         else:
             parts.append(" ")
     v = rng.choice(["", " "]).join(parts)
     return {"t": "qstr", "v": v, "q": rng.choice(['"', "'"])}
 
 
-USTR_CLASSES = ["word", "word", "sentence", "sentence-dot", "digit-leading", "path", "winpath", "url", "plusminus", "id-float-id", "pct"]
+USTR_CLASSES = ["word", "word", "sentence", "sentence-dot", "digit-leading", "path", "winpath", "url", "plusminus", "id-float-id", "pct", "ctrl-char", "bool-word", "multi-blank"]
 USTR_NUMBER_FINAL = ["number-final-dot", "number-final-word", "number-final-ver"]
 
 
@@ -104,6 +107,12 @@ def gen_ustr(rng, allow_colon=True, classes=None):
         v = rng.choice(["x.5y", "a1.25b", "v.0rc"])
     elif cls == "pct":
         v = rng.choice(["%abc", "50%cover", "a&b", "x;y", "a|b", "q?"])
+    elif cls == "ctrl-char":
+        v = rng.choice(["page\x0cbreak", "a\x0bb", "x\x85y", "ls\u2028sep", "fs\x1csep"])
+    elif cls == "bool-word":
+        v = rng.choice(["True", "False", "True color composite", "Not True", "False alarm rate", "is True"])
+    elif cls == "multi-blank":
+        v = rng.choice(["Hello  World", "Version 1.50   final", "a\tb", "two  spaces.", "x \t y", "5  abc"])
     elif cls == "number-final-dot":
         v = rng.choice(["file.2", "/a/b.5x.7", "layer.10"])
     elif cls == "number-final-word":
@@ -139,7 +148,7 @@ def gen_tuple(rng, **kw):
     n = rng.randint(1, 4)
     pairs, seen = [], set()
     for _ in range(n):
-        key = rng.choice(WORDS + ["Color", "Display Name", "k1", "5abc", "a.b", "Cover%", "Units/", "x.5y", "/p/q", "k.", "%"])
+        key = rng.choice(WORDS + ["Color", "Display Name", "k1", "5abc", "a.b", "Cover%", "Units/", "x.5y", "/p/q", "k.", "%", "True", "Flag  two"])
         if key in seen:
             continue
         seen.add(key)
